@@ -81,7 +81,10 @@ def handle_violations(work, drive, prop, out, invariants):
         replay_path = save_replay(prop, seg)
         status, info = confirm(work, drive, replay_path, invariants)
         k = match_known(prop, seg)
-        os.remove(replay_path)
+        try:
+            os.remove(replay_path)
+        except FileNotFoundError:
+            pass
         if status in ("confirmed", "crash") and k and k["id"] not in [x[0] for x in known]:
             msg = "KNOWN-FINDING: property=%s %s (%s at: %s)" % (prop, k["what"], v.invariant, describe_line(seg))
             print(msg, flush=True)
@@ -181,6 +184,9 @@ def tree_check(work, prop, tier, seed, t0, stages, invariants, model_invs, rule,
         # conformance of the L1 model itself to the real structure (size classes, inline bytes): informative
         extra_cov = dict(extra_cov or {})
         extra_cov["model_drift_L1_vs_real_dumps"] = measure_drift(work, out.trace_files)
+        if out.known_files:
+            # does the implementation-shaped model also explain what the real tree does inside the known finding?
+            extra_cov["model_drift_inside_known_finding"] = measure_drift(work, out.known_files)
     finish(prop, tier, seed, t0, out, violations, known, level, rule, invariants, extra_cov, assumptions)
     if violations:
         return 1
@@ -209,15 +215,24 @@ def std_stages(tier, seed, battery, closed=("split", "long"), kinds_random=None,
     for k in nk:
         st.append(Stage("model", k, "fixedq", size, battery, cap=(4000 if q else None)))
     if fan:
-        st.append(Stage("sim", "uint8", "fan1", size, battery, num=(2 if q else 8), depth=(560 if q else 1100), ramp=True,
+        # 256 children: one behaviour family fills the node from empty (4 -> 16 -> 48 -> 256), the other starts from the
+        # full node and drains it (256 -> 48 at 37, -> 16 at 12, -> 4 at 3): both directions within a bounded depth
+        st.append(Stage("sim", "uint8", "fan1", size, battery, num=(1 if q else 4), depth=(480 if q else 1000), ramp=True,
                         invs=["SizeOK", "AllOK"], every=False))
+        st.append(Stage("sim", "uint8", "fan1", size, battery, num=(1 if q else 4), depth=(480 if q else 1000), ramp=True,
+                        invs=["SizeOK", "AllOK"], every=False, start_full=True))
         st.append(Stage("sim", "alpha/string", "fan2", size, battery, num=(2 if q else 8), depth=(200 if q else 400), ramp=True,
                         invs=["SearchOK", "SizeOK", "AllOK", "WFOK"], every=False))
         # 256-class node below a compressed path, with the terminator child (alpha) / fixed high bytes (numeric)
-        st.append(Stage("sim", "alpha/bytes", "fan1x", size, battery, num=(1 if q else 6), depth=(600 if q else 1200), ramp=True,
-                        invs=["SizeOK", "AllOK"], every=False))
-        st.append(Stage("sim", "uint32", "fanp", size, battery, num=(1 if q else 6), depth=(600 if q else 1200), ramp=True,
-                        invs=["SizeOK", "AllOK"], every=False))
+        st.append(Stage("sim", "alpha/bytes", "fan1x", size, battery, num=(1 if q else 4), depth=(480 if q else 1000), ramp=True,
+                        invs=["SizeOK", "AllOK"], every=False, start_full=q))
+        st.append(Stage("sim", "uint32", "fanp", size, battery, num=(1 if q else 4), depth=(480 if q else 1000), ramp=True,
+                        invs=["SizeOK", "AllOK"], every=False, start_full=True))
+        if not q:
+            st.append(Stage("sim", "alpha/bytes", "fan1x", size, battery, num=4, depth=900, ramp=True,
+                            invs=["SizeOK", "AllOK"], every=False, start_full=True))
+            st.append(Stage("sim", "uint32", "fanp", size, battery, num=4, depth=900, ramp=True,
+                            invs=["SizeOK", "AllOK"], every=False))
         # a wide (256-slot class) node with later siblings
         st.append(Stage("sim", "alpha/string", "fanw", size, battery, num=(2 if q else 8), depth=(260 if q else 500), ramp=True,
                         invs=["SizeOK", "AllOK", "WFOK"], every=False, batevery=4))
@@ -231,6 +246,11 @@ def std_stages(tier, seed, battery, closed=("split", "long"), kinds_random=None,
                         invs=["SearchOK", "SizeOK", "AllOK", "WFOK"], every=False, batevery=6))
         st.append(Stage("sim", "alpha/string", "fanb", size, battery, num=(2 if q else 8), depth=(200 if q else 400), ramp=True,
                         invs=["SearchOK", "SizeOK", "AllOK", "WFOK"], every=False, batevery=6))
+        # the portable 16-slot routines (GOARCH=386 build; amd64 and arm64 use assembly) under boundary-byte ramps
+        st.append(Stage("sim", "uint8", "fanb", size, battery, num=(1 if q else 6), depth=(200 if q else 400), ramp=True,
+                        invs=["SizeOK", "AllOK"], every=False, batevery=6, variant="386"))
+        st.append(Stage("sim", "alpha/string", "fan18", size, battery, num=(1 if q else 6), depth=(300 if q else 600), ramp=True,
+                        invs=["SizeOK", "AllOK"], every=False, batevery=1, variant="386"))
     kr = kinds_random if kinds_random is not None else SIMPLE_KINDS
     n = rnd_n or (4 if q else 30)
     ln = rnd_len or (50 if q else 120)
@@ -268,8 +288,10 @@ def comp_stages(tier, seed, battery, n=None, ln=None):
     st = []
     # a 256-way root in a compound tree (first field int8/uint8: 0xFF and 0x00 branches included)
     for s in (["compound/i8+u16"] if q else ["compound/i8+u16", "compound/u8+str", "compound/u8+f32"]):
-        st.append(Stage("sim", s, "tuplefan", "q", battery, num=(1 if q else 4), depth=(600 if q else 1200), ramp=True,
-                        invs=["SizeOK", "AllOK"], every=False))
+        st.append(Stage("sim", s, "tuplefan", "q", battery, num=(1 if q else 4), depth=(480 if q else 1000), ramp=True,
+                        invs=["SizeOK", "AllOK"], every=False, start_full=True))
+        if not q:
+            st.append(Stage("sim", s, "tuplefan", "q", battery, num=4, depth=900, ramp=True, invs=["SizeOK", "AllOK"], every=False))
     schemas = rand_schemas(seed, 4 if q else 20)
     for i, s in enumerate(schemas):
         if i < (1 if q else 4):
@@ -288,7 +310,7 @@ def check_C01(work, prop, tier, seed, t0):
     stages = std_stages(tier, seed, "search", extra=extra)
     return tree_check(work, prop, tier, seed, t0, stages, PROP_INVS[prop],
                       ["SearchOK", "DeleteResOK", "LeavesOK"], RULE_TREE,
-                      model_props=["OverwriteKeepsShape", "FailedDeleteIsNoop"])
+                      model_props=["OverwriteKeepsShape", "FailedDeleteIsNoop"], drift=True)
 
 
 def check_C02(work, prop, tier, seed, t0):
@@ -299,11 +321,18 @@ def check_C02(work, prop, tier, seed, t0):
 
 def check_C03(work, prop, tier, seed, t0):
     q = tier == "quick"
-    bat = "range=-1" if not q else "range=40"
+    # all bound pairs after every transition only on the small closed universe; sampled pairs elsewhere
+    # (measured: all pairs x every transition of the 13-key universes is > 10^8 calls / 60 GB of traces)
+    bat = "range=40" if q else "range=100"
     stages = std_stages(tier, seed, bat, closed=("range", "split"), fan=False,
                         extra=comp_stages(tier, seed, bat) +
-                        [Stage("sim", "uint8", "fan1", "q", "range=30", num=(1 if q else 6), depth=(560 if q else 1100),
-                               ramp=True, invs=["SizeOK"], every=False)])
+                        [Stage("sim", "uint8", "fan1", "q", "range=30", num=(1 if q else 6), depth=(480 if q else 1000),
+                               ramp=True, invs=["SizeOK"], every=False),
+                         Stage("sim", "uint8", "fan1", "q", "range=30", num=(1 if q else 6), depth=(480 if q else 1000),
+                               ramp=True, invs=["SizeOK"], every=False, start_full=True)])
+    if not q:
+        stages.append(Stage("model", "alpha/string", "range", "q", "range=-1"))
+        stages.append(Stage("model", "uint32", "fixedq", "q", "range=-1"))
     # Range on an empty tree, every bound pair
     stages.append(Stage("random", "alpha/string", "range", "q", "range=-1", n=1, len=0))
     stages.append(Stage("random", "float64", "random", "q", "range=-1", n=1, len=0))
@@ -319,8 +348,10 @@ def check_C04(work, prop, tier, seed, t0):
     bat = "prefix=-1"
     st = [Stage("model", "alpha/string", "prefix", size, bat), Stage("model", "alpha/string", "split", size, bat),
           Stage("model", "alpha/bytes", "long", size, bat),
-          Stage("sim", "alpha/string", "fan1x", size, "prefix=8", num=(2 if q else 8), depth=(520 if q else 1040), ramp=True,
+          Stage("sim", "alpha/string", "fan1x", size, "prefix=8", num=(1 if q else 6), depth=(480 if q else 1000), ramp=True,
                 invs=["SizeOK"], every=False),
+          Stage("sim", "alpha/string", "fan1x", size, "prefix=8", num=(1 if q else 6), depth=(480 if q else 1000), ramp=True,
+                invs=["SizeOK"], every=False, start_full=True),
           Stage("sim", "alpha/bytes", "fan2", size, "prefix=-1", num=(2 if q else 8), depth=(200 if q else 400), ramp=True,
                 invs=["SizeOK"], every=False),
           Stage("model", "collation/string/und", "textq", "q", bat)]
@@ -369,6 +400,9 @@ def check_C15(work, prop, tier, seed, t0):
     extra = coll_stages(tier, bat) + comp_stages(tier, seed, bat)
     q = tier == "quick"
     stages = std_stages(tier, seed, bat, extra=extra, model_kinds=["alpha/string"])
+    # queries whose []byte arguments live in caller buffers or are re-slices of keys the tree yielded earlier
+    stages.append(Stage("arena", "alpha/bytes", "random", "q", "all", n=(3 if q else 10), len=(40 if q else 100)))
+    stages.append(Stage("arena", "alpha/bytes", "prefix", "q", "all", n=(2 if q else 8), len=(40 if q else 100)))
     if q:
         for s in stages:
             if s.typ == "model":
@@ -383,6 +417,9 @@ def check_C08(work, prop, tier, seed, t0):
     st = coll_stages(tier, bat, n=(6 if q else 25), ln=(70 if q else 200))
     st.append(Stage("model", "collation/bytes/sv", "textq", "q", bat))
     st.append(Stage("model", "collation/runes/und", "textq", "q", bat))
+    # byte-slice keys handed over in buffers the caller reuses afterwards: the tree must keep what was inserted
+    for k in (["collation/bytes/und"] if q else ["collation/bytes/und", "collation/bytes/sv", "collation/bytes/en-num"]):
+        st.append(Stage("arena", k, "text", "q", "search,iter,minmax", n=(3 if q else 10), len=(50 if q else 120)))
     return tree_check(work, prop, tier, seed, t0, st, PROP_INVS[prop],
                       ["SearchOK", "DeleteResOK", "AllOK", "BackwardOK", "WFOK", "SizeOK"], RULE_TREE, model_props=[])
 
@@ -442,9 +479,8 @@ def write_mc_node(work, name, alphabet, emit, guard=True, unsigned=True):
 def check_C10(work, prop, tier, seed, t0):
     q = tier == "quick"
     drive = build_harness(work)
-    variants = [("amd64", drive)]
-    if not q:
-        variants.append(("386-portable", build_harness(work, "386")))
+    # amd64 assembly and the portable fallback (node16_other.go, compiled for GOARCH=386)
+    variants = [("amd64", drive), ("386-portable", build_harness(work, "386"))]
     alphabet = [0, 1, 2, 126, 127, 128, 129, 254, 255] if q else [0, 1, 2, 64, 126, 127, 128, 129, 200, 253, 254, 255]
     mod = write_mc_node(work, "node", alphabet, emit=True)
     edges = work.path("node-edges.ndjson")
